@@ -154,7 +154,7 @@ fn gen_container(r: &mut Rng) -> ContainerCfg {
         if mounts.iter().any(|(ss, _)| *ss == s) {
             continue;
         }
-        mounts.push((s, (*r.pick(&["/data", "/mnt/with space", "/t=1", "/-t"])).to_string()));
+        mounts.push((s, (*r.pick(&["/data", "/mnt/with space", "/t=1", "/-t", "cache", "./tmp", "workspace/b"])).to_string()));
     }
     ContainerCfg {
         entrypoint: r.bool().then(|| tricky(r)).filter(|e| !e.is_empty()),
